@@ -85,6 +85,24 @@ def run(ctx):
                             break
                 lits.append("(%s, %s, %s)" % (c_nat(K), c_list([c_list(r, c_Z) for r in data.astype(int).tolist()]), c_list(labels, c_nat)))
                 meta.append((case, got))
+        # (a') thousands of windows (more than the usual block sizes of vectorised code), unequal cluster sizes:
+        # the value must be the faithful formula (and, the columns sharing one mean, the definition)
+        for j, Tn in enumerate([4097, 5000, 9001] + ([66000] if ctx.thorough else [])):
+            K = 2 + j % 2
+            d = 2
+            labels = [int(x) for x in (np.arange(Tn) * K // Tn)]
+            lab_arr = np.array(labels)
+            data = rng.normal(size=(Tn, d)) + lab_arr[:, None] * 3.0
+            data = data - data.mean(axis=0)
+            data = data - data.mean(axis=0)
+            got = impl_value(data, labels, K, biased=bool(j % 2))
+            ref_f = ch_impl_np(data, labels, K)
+            ref_d = ch_def_np(data, labels, K)
+            ctx.count("unit-large")
+            ctx.mark_nontrivial(("large", Tn))
+            if abs(got - ref_f) > 1e-9 * max(1.0, abs(ref_f)) or abs(got - ref_d) > 1e-6 * max(1.0, abs(ref_d)):
+                ctx.violation("monitor", "with %d windows (column-centred data, %d clusters) the index %r differs from the definition %r" % (Tn, K, got, ref_d),
+                              {"case": {"T": Tn, "K": K, "data": "normal + 3*label, column-centred, seed %d" % ctx.seed}})
         # (b) traced runs
         from fast_ticc import data_preparation as dp
         runs = e2e.cached_runs(ctx, e2e.standard_grid(ctx.seed, ctx.thorough), "std")
